@@ -211,7 +211,7 @@ package ttlv
 // (panic, the writer has no error result) instead of being written as another value
 //@ func (*ttlvWriter).Interval
 //@   requires enc != nil && int64(interval)%1000000000 == 0
-//@   maypanic
+//@   maypanic interval < 0 || int64(interval)/1000000000 >= 1<<32
 //@   ensures 0 <= interval && int64(interval)/1000000000 < 1<<32
 //@   ensures is_cat(enc.buf, old(enc.buf), hdrseq(tag, 10, 4), be32seq(int64(interval)/1000000000), 0, 0, 0, 0)
 //@   ensures off(enc.buf) == old(off(enc.buf)) && (samearr(enc.buf, old(enc.buf)) || isnew(enc.buf))
